@@ -48,20 +48,54 @@ type schema struct {
 	fields []fld
 	blocks []block // used only when the full product exceeds the limit
 	idx    map[string]int
+	alph   [][]string         // per field: every token met so far (index = compact code)
+	code   []map[string]uint8 // per field: token -> compact code
 }
 
 func (s *schema) init() *schema {
 	s.idx = map[string]int{}
+	s.alph = make([][]string, len(s.fields))
+	s.code = make([]map[string]uint8, len(s.fields))
 	for i, f := range s.fields {
 		s.idx[f.name] = i
+		s.code[i] = map[string]uint8{}
 	}
 	return s
 }
 
+func (s *schema) encode(i int, tok string) uint8 {
+	if c, ok := s.code[i][tok]; ok {
+		return c
+	}
+	c := uint8(len(s.alph[i]))
+	s.alph[i] = append(s.alph[i], tok)
+	s.code[i][tok] = c
+	return c
+}
+
+// shape is one token vector in compact form (one code per field).
 type shape struct {
-	tok    []string
+	ix     []uint8
 	origin string // full | single | pair | block:<name>
-	dev    int    // number of fields that differ from the base shape
+	dev    uint8  // number of fields that differ from the base shape
+}
+
+func (s *schema) toks(sh shape) []string {
+	t := make([]string, len(sh.ix))
+	for i, c := range sh.ix {
+		t[i] = s.alph[i][c]
+	}
+	return t
+}
+
+func (s *schema) tokAt(sh shape, i int) string { return s.alph[i][sh.ix[i]] }
+
+func (s *schema) shapeOf(tok []string) shape {
+	ix := make([]uint8, len(tok))
+	for i, t := range tok {
+		ix[i] = s.encode(i, t)
+	}
+	return shape{ix: ix}
 }
 
 func (s *schema) fullSize() int {
@@ -100,23 +134,32 @@ func (s *schema) baseTok() []string {
 // otherwise base + all single-field sweeps + all pairs (full alphabets) + the declared blocks.
 // The list is deterministic and free of duplicates.
 func (s *schema) enumerate(limit int) (out []shape, rule string) {
-	seen := map[string]bool{}
+	seen := map[uint64]struct{}{}
 	base := s.baseTok()
+	c := make([]string, len(s.fields))
 	add := func(t []string, origin string) {
-		c := append([]string(nil), t...)
+		copy(c, t)
 		s.canon(c)
-		k := strings.Join(c, "|")
-		if seen[k] {
+		h := uint64(14695981039346656037)
+		for _, x := range c {
+			for k := 0; k < len(x); k++ {
+				h = (h ^ uint64(x[k])) * 1099511628211
+			}
+			h = (h ^ '|') * 1099511628211
+		}
+		if _, ok := seen[h]; ok {
 			return
 		}
-		seen[k] = true
+		seen[h] = struct{}{}
 		dev := 0
 		for i := range c {
 			if c[i] != base[i] && c[i] != "-" {
 				dev++
 			}
 		}
-		out = append(out, shape{tok: c, origin: origin, dev: dev})
+		sh := s.shapeOf(c)
+		sh.origin, sh.dev = origin, uint8(dev)
+		out = append(out, sh)
 	}
 	var product func(fields []int, alph [][]string, cur []string, k int, origin string)
 	product = func(fields []int, alph [][]string, cur []string, k int, origin string) {
@@ -310,7 +353,6 @@ func schemaGossipTrx(thorough bool) *schema {
 	}
 	if thorough {
 		s.blocks = append(s.blocks,
-			block{name: "red3(Trx.*)xred3(Gossipers,g.*)", alph: merge(redOf(tf), redOf(gf))},
 			block{name: "full(Trx bytes/address/Spice)", alph: fullOf(tf, "Trx.Data", "Trx.Hash", "Trx.ReceiverAddress", "Trx.IssuerAddress", "Trx.ReceiverSignature", "Trx.IssuerSignature", "Trx.Spice")})
 	}
 	return s.init()
